@@ -573,12 +573,22 @@ def graph_paths(g):
     return g.bfs_paths()
 
 
+def retry(fn, *a, **kw):
+    """TLC killed from outside (shared machine) is retried once; a second failure is a machinery failure."""
+    try:
+        return fn(*a, **kw)
+    except tlc.TlcError as e:
+        if "Error:" in str(e):   # TLC's own diagnosis (parse error, evaluation error): not transient
+            raise
+        return fn(*a, **kw)
+
+
 def run_side(chk: Check, kind: str, spec: Path, cfgs, sim_cfg, sim_num, sim_depth, workers=8, sim_workers=4):
     frame = v1_frame if kind == "v1" else v2_frame
     rep = replay_v1 if kind == "v1" else replay_v2
     distinct = set()
     for cfg in cfgs:
-        res, g = tlc.dump_graph(spec, MC / cfg, chk.tmp, workers=workers, timeout=1500)
+        res, g = retry(tlc.dump_graph, spec, MC / cfg, chk.tmp, workers=workers, timeout=1500)
         chk.add_tlc(res, cfg)
         chk.spec_violation(res, cfg)
         if g is None:
@@ -595,7 +605,7 @@ def run_side(chk: Check, kind: str, spec: Path, cfgs, sim_cfg, sim_num, sim_dept
             if e["op"] != "init":
                 distinct.add((s["st"]["row"] if e["op"] != "bar" else e["row"], json.dumps(jsonable(e), sort_keys=True)))
     if sim_cfg:
-        res, behs = tlc.simulate(spec, MC / sim_cfg, chk.tmp, num=sim_num, depth=sim_depth, seed=chk.seed, workers=sim_workers, timeout=1500)
+        res, behs = retry(tlc.simulate, spec, MC / sim_cfg, chk.tmp, num=sim_num, depth=sim_depth, seed=chk.seed, workers=sim_workers, timeout=1500)
         chk.add_tlc(res, f"{sim_cfg}(simulate)")
         chk.spec_violation(res, sim_cfg)
         behs = [[unq(s) for _, s in b] for b in behs if len(b) > 1]
@@ -616,7 +626,7 @@ def check_devs(chk: Check):
 
     def one(d):
         spec, cfg, switch, inv = d
-        r = tlc.run(spec, MC / cfg, chk.tmp, workers=2, timeout=600)
+        r = retry(tlc.run, spec, MC / cfg, chk.tmp, workers=2, timeout=600)
         return switch, inv, r.violated
 
     det = {}
